@@ -107,6 +107,70 @@ def first_list_child(node, ListNode):
     return None
 
 
+MUT={"append","extend","update","setdefault","add","clear","pop","popitem","remove","insert","discard","register","sort","reverse","__setitem__","appendleft"}
+CACHE={"lru_cache","cache","cached_property","singledispatch"}
+def scan_global_writes(f):
+    tree=ast.parse(f.read_text())
+    modnames=set()
+    for n in tree.body:
+        if isinstance(n,(ast.Assign,ast.AnnAssign,ast.AugAssign)):
+            for t in (n.targets if isinstance(n,ast.Assign) else [n.target]):
+                for x in ast.walk(t):
+                    if isinstance(x,ast.Name): modnames.add(x.id)
+        elif isinstance(n,(ast.Import,ast.ImportFrom)):
+            for a in n.names: modnames.add((a.asname or a.name).split(".")[0])
+        elif isinstance(n,(ast.FunctionDef,ast.ClassDef)): modnames.add(n.name)
+    out=[]
+    def in_func(fn, qual):
+        locs={a.arg for a in fn.args.args+fn.args.kwonlyargs+fn.args.posonlyargs}
+        if fn.args.vararg: locs.add(fn.args.vararg.arg)
+        if fn.args.kwarg: locs.add(fn.args.kwarg.arg)
+        globs=set()
+        for n in ast.walk(fn):
+            if isinstance(n,ast.Global): globs|=set(n.names)
+            elif isinstance(n,(ast.Assign,ast.AnnAssign,ast.AugAssign,ast.For,ast.With,ast.NamedExpr,ast.comprehension)):
+                tg=[]
+                if isinstance(n,ast.Assign): tg=n.targets
+                elif isinstance(n,(ast.AnnAssign,ast.AugAssign,ast.NamedExpr)): tg=[n.target]
+                elif isinstance(n,(ast.For,ast.comprehension)): tg=[n.target]
+                elif isinstance(n,ast.With): tg=[i.optional_vars for i in n.items if i.optional_vars]
+                for t in tg:
+                    for x in ast.walk(t):
+                        if isinstance(x,ast.Name) and isinstance(x.ctx,ast.Store): locs.add(x.id)
+        for g in globs: out.append((qual,"global "+g,fn.lineno))
+        def base(e):
+            while isinstance(e,(ast.Attribute,ast.Subscript)): e=e.value
+            return e.id if isinstance(e,ast.Name) else None
+        for n in ast.walk(fn):
+            if isinstance(n,(ast.Assign,ast.AugAssign,ast.AnnAssign,ast.Delete)):
+                tg=n.targets if isinstance(n,(ast.Assign,ast.Delete)) else [n.target]
+                for t in tg:
+                    if isinstance(t,(ast.Attribute,ast.Subscript)):
+                        b=base(t)
+                        if b and b in modnames and b not in locs and b not in ("self","cls"):
+                            out.append((qual,"store into "+ast.unparse(t),n.lineno))
+            elif isinstance(n,ast.Call) and isinstance(n.func,ast.Attribute) and n.func.attr in MUT:
+                b=base(n.func.value)
+                if b and b in modnames and b not in locs:
+                    out.append((qual,"call "+ast.unparse(n.func),n.lineno))
+        for d in fn.decorator_list:
+            name=ast.unparse(d)
+            if any(c in name for c in CACHE): out.append((qual,"decorator "+name,fn.lineno))
+        for dflt in fn.args.defaults+[d for d in fn.args.kw_defaults if d is not None]:
+            if isinstance(dflt,(ast.List,ast.Dict,ast.Set)) or (isinstance(dflt,ast.Call) and ast.unparse(dflt.func) in ("list","dict","set","defaultdict")):
+                out.append((qual,"mutable default "+ast.unparse(dflt),fn.lineno))
+    def visit(body, prefix):
+        for n in body:
+            if isinstance(n,(ast.FunctionDef,ast.AsyncFunctionDef)): in_func(n, prefix+n.name); 
+            elif isinstance(n,ast.ClassDef): visit(n.body, prefix+n.name+".")
+    visit(tree.body,"")
+    return out
+
+
+# decorators whose state is per-instance or import-time only
+FRAME_ALLOWED = ("decorator singledispatch", "decorator cached_property")
+
+
 def main(out_v, out_json):
     import skops
     import skops.io as sio
@@ -227,6 +291,16 @@ def main(out_v, out_json):
     # ---- visualize: kinds whose children are not visited
     info["skipped"] = [class_tag(c) for c in _visualize.SKIPPED_TYPES]
 
+    # ---- call-time writes to module-level state (AST scan, C20): assignments through `global`, stores into / mutating
+    # method calls on module-level names from inside functions, caching decorators, mutable default arguments
+    gw = []
+    for d in ("skops/io", "skops/io/old", "skops/card", "skops/cli", "skops/utils"):
+        for f in sorted((REPO / d).glob("*.py")):
+            for q, w, l in scan_global_writes(f):
+                gw.append([str(f.relative_to(REPO)), q, w, l])
+    info["global_writes"] = gw
+    info["call_time_global_writes"] = [g for g in gw if g[2] not in FRAME_ALLOWED]
+
     # ---- emit Coq
     o = []
     o.append("(* GENERATED by harness/snapshot.py from the live /repo code -- do not edit *)")
@@ -241,6 +315,8 @@ def main(out_v, out_json):
         f"({cstr(tag)}, ({cbool(r['uses_T'])}, {clist((cstr(x) for x in r['defaults']), 'pstr')}, {clist((cstr(x) for x in r['down_extra']), 'pstr')}))"
         for tag, r in classes.items()) + ".")
     o.append("Definition family_tags : list (pstr * pstr) := " + clist((f"({cstr(n)}, {cstr(t)})" for n, t in tags.items()), "(pstr * pstr)") + ".")
+    o.append("Definition call_time_global_writes : list (pstr * pstr * pstr) := " + clist(
+        (f"({cstr(a)}, {cstr(b)}, {cstr(c[:80])})" for a, b, c, _ in info["call_time_global_writes"]), "(pstr * pstr * pstr)") + ".")
     o.append("Definition unavailable : list pstr := " + clist((cstr(t) for t, r in classes.items() if not r["available"]), "pstr") + ".")
     Path(out_v).write_text("\n".join(o) + "\n")
     Path(out_json).write_text(json.dumps(info, indent=1))
